@@ -489,6 +489,9 @@ CHECK_DEADLOCK FALSE
 """, expect_actions=["Next"], timeout=900, label="PoolApi (extension)")
     check_api(ctx, api_scenarios(ctx))
     check_smc_pool(ctx)
+    from harness.props import x_two_stage
+    obs = x_two_stage.check_two_stage(ctx)      # extension: TwoStageSelection and its internal pool (drift only)
+    ctx.notes.append("extension TwoStage: %s" % obs)
     scs = scenarios(ctx)
     traces = check_scenarios(ctx, scs)
     for i in (0, len(scs) // 2):
